@@ -38,7 +38,36 @@ SCAN_TAGS = {"TRACEV3_STACKSHOT_END", "TRACEV3_THREADMAP_TAG", "TRACEV3_EVENTS_T
 ACCUMULATING = {"kernel_extensions", "dyld_modules", "trace_codes", "log_events"}
 
 
+def thread_map_entries(repo: Repo, run: Run) -> None:
+    """The version-3 thread-map chunk is an array of the same kd_threadmap entries as the version-2 header's: the entry
+    layout C02/R3 establishes (tid u64, pid u32, NUL-terminated name in its 20-byte field) is what populates the tables
+    here too, and so is the clear-then-fill discipline of set_thread_map (C02/R4)."""
+    import ast
+    from . import c02
+    mod = repo.module("kd_buf_parser")
+    node = mod.constants.get("kd_v3_threadmap")
+    uses_shared = node is not None and any(isinstance(n, ast.Name) and n.id == "kd_threadmap" for n in ast.walk(node))
+    run.ob("R9", MOD, "kd_v3_threadmap", "thread-map chunk is an array of kd_threadmap entries", uses_shared,
+           "kd_v3_threadmap no longer uses the kd_threadmap entry layout shared with version 2: its entries are not judged",
+           nontrivial=False)
+    probe = Run("C02", run.tier, run.repo_root)
+    try:
+        c02.check(repo, probe)
+    except AnalysisError:
+        pass
+    n = 0
+    for o in probe.obligations:
+        if (o["rule"] == "R3" and o["scope"] == "kd_threadmap") or \
+                (o["rule"] == "R4" and o["scope"].endswith("set_thread_map")):
+            n += 1
+            run.ob("R9", o["module"], o["scope"], f"thread-map entries (C02/{o['rule']}): {o['construct']}", o["ok"],
+                   (o.get("what", "") + " - the version-3 thread-map chunk fills the thread/process tables through the same entry "
+                    "layout and the same set_thread_map") if not o["ok"] else "", nontrivial=False)
+    run.floor("R9", "thread-map obligations taken over from C02", n, 4)
+
+
 def check(repo: Repo, run: Run) -> None:
+    thread_map_entries(repo, run)
     interp = sym.Interp(repo)
     mod = repo.module("kd_buf_parser")
     kb = repo.cls("kd_buf_parser", "KdBufParser")
@@ -82,6 +111,9 @@ def check(repo: Repo, run: Run) -> None:
     outer = rec.loops[outer_ids[-1]]
     size_t = T("call", (T("global", ("construct.Int64ul.parse_stream",)), (reader,), ()))
     want_iter = T("call", (T("builtin", ("range",)), (T("bin", ("//", size_t, const(ks))),), ()))
+    if inner.kind != "for" or inner.iter is None:
+        raise AnalysisError("parse_v3: the record loop of a chunk is not a `for ... in range(<count>)` loop (a counter driven "
+                            "while loop or similar): how many records it reads per chunk is not decided")
     run.ob("R1", MOD, "KdBufParser.parse_v3", "record loop runs chunk_size // KEVENT_SIZE times", inner.iter == want_iter,
            "" if inner.iter == want_iter else
            f"the record loop iterates over {sym.pretty(inner.iter)[:100]} instead of range(<parsed chunk size> // {ks}): events of a "
@@ -234,6 +266,9 @@ def check(repo: Repo, run: Run) -> None:
                 if tg and x.a[1].op == "comp":
                     landed.setdefault(tg, []).append({"kind": "assign", "key": None, "target": "log_strings", "aug": None,
                                                       "value": x.a[1], "pc": (), "line": dl.lineno})
+    if not landed:
+        raise AnalysisError("parse_v3: no store of an additional-data block under a `block.tag == TRACEV3_...` test was recognised "
+                            "(dispatch through a table of methods, a helper object, ...): the section mapping is not decided")
     n_dispatch = 0
     for name in sorted(tags):
         if name in SCAN_TAGS:
